@@ -238,7 +238,10 @@ def tla_proto(name, kind, init, outcome, aops, init_objs=None):
         return f + ']'
 
     io = init_objs or {}
-    pre = ', '.join(f'{o} |-> "{"partial" if io.get(o) else "absent"}"' for o in ('tmp', 'err', 'old'))
+
+    def state(v):      # a bool (something is there) or the abstract state itself
+        return v if isinstance(v, str) else ('partial' if v else 'absent')
+    pre = ', '.join(f'{o} |-> "{state(io.get(o))}"' for o in ('tmp', 'err', 'old'))
     return (f'[name |-> "{name}", kind |-> "{kind}", init |-> "{init}", pre |-> [{pre}], outcome |-> "{outcome}", '
             f'ops |-> <<{", ".join(op(x) for x in aops)}>>]')
 
